@@ -131,6 +131,9 @@ class Synth:
         order = [self.pos[a] < self.pos[b] for a, b in deps]
         nop = self.code["NOP"]
         nops_last = [z3.Implies(self.t[j] == nop, self.t[j + 1] == nop) for j in range(n - 1)]
+        self.final = z3.And(*final)
+        self.once = z3.And(*count) if count else z3.BoolVal(True)
+        self.order = z3.And(*order) if order else z3.BoolVal(True)
         self.realizes = z3.And(z3.Not(err[n]), *(final + count + order + nops_last))
         self.length = z3.Sum([z3.If(t == nop, 0, 1) for t in self.t]) if self.t else z3.IntVal(0)
         self.peak = h
